@@ -16,7 +16,7 @@ mod procedure;
 mod rand;
 mod string;
 mod symbol;
-mod vector;
+pub(crate) mod vector;
 
 /// Built Ins
 ///
